@@ -238,6 +238,7 @@ pub async fn download_config(
 
 /// 按 key 导出配置
 pub async fn download_config_by_keys(
+    req: HttpRequest,
     request: web::Json<Vec<ConfigParams>>,
     config_addr: web::Data<Addr<ConfigActor>>,
 ) -> impl Responder {
@@ -246,7 +247,7 @@ pub async fn download_config_by_keys(
         return HttpResponse::BadRequest().body("keys cannot be empty");
     }
 
-    let keys = params
+    let keys: Vec<ConfigKey> = params
         .into_iter()
         .map(|k| {
             let k = k.to_key();
@@ -256,6 +257,15 @@ pub async fn download_config_by_keys(
             }
         })
         .collect();
+    let namespace_privilege = user_namespace_privilege!(req);
+    for key in &keys {
+        if !namespace_privilege.check_permission(&key.tenant) {
+            return HttpResponse::Unauthorized().body(format!(
+                "user no such namespace permission: {:?}",
+                &key.tenant
+            ));
+        }
+    }
 
     let cmd = ConfigCmd::QueryInfoByKeys(Box::new(keys));
     match config_addr.send(cmd).await {
